@@ -203,7 +203,7 @@ def sheet_for(ptext, use_key):
             "substring('t',1,number(boolean(self::text()))),substring('c',1,number(boolean(self::comment()))),"
             "substring('p',1,number(boolean(self::processing-instruction()))),"
             "substring('a',1,number(count(.|../@*)=count(../@*))))")
-    body = ['<xsl:stylesheet version="1.0" xmlns:xsl="%s"><xsl:output method="text"/>' % XSL,
+    body = ['<xsl:stylesheet version="1.0" xmlns:xsl="%s" xmlns:p="urn:p" xmlns:q="urn:q"><xsl:output method="text"/>' % XSL,
             '<xsl:key name="k" match="*" use="name()"/>']
     if use_key:
         body.append('<xsl:key name="m" match="%s" use="\'v\'"/>' % P)
@@ -343,7 +343,7 @@ def evaluate_sheets(ctx, cases, model):
 
 def run(ctx):
     ctx.assumptions += [
-        "documents are namespace-free and carry no xmlns declarations except the implicit xmlns:xml; node tests prefix:name / prefix:* are not modelled",
+        "namespaces: one prefix declaration (xmlns:p on the document element) besides the implicit xmlns:xml, no default namespace; name tests prefix:name and prefix:* are modelled (an expanded name is a pair coded as one number)",
         "predicates of the generated patterns are drawn from a 14-construct language (position()/last() comparisons, number literals, last(), count(), @a, child and parent tests, true(), not/and/or); the theorems quantify over arbitrary predicate functions with a sound positional flag",
         "no xsl:strip-space (shouldStripSourceNode is false)",
         "id()/key() heads are part of the Coq model and theorems (node-set abstract) but are not exercised at the XPath API level (no DTD ids, no keys there)",
